@@ -189,7 +189,16 @@ def run(ctx):
                     [("hexflower", "MC_Resample_thorough.cfg"), ("hexflower", "MC_Resample_deep.cfg"),
                      ("squares33", "MC_Resample_mid.cfg"), ("brick33", "MC_Resample_mid.cfg"),
                      ("hex33", "MC_Resample_mid.cfg")])
-    jobs, payloads, case = [], {}, 0
+    jobs, payloads, case, verdicts, results = [], {}, 0, {}, []
+    n_mc = 0
+
+    def flush(final=False):
+        """thorough tier: validate group by group so that the snapshots do not pile up in memory"""
+        nonlocal results
+        if results and (final or not ctx.quick):
+            verdicts.update(ctx.validate("Trace_Resample", results, heap="3g"))
+            results = []
+
     for b, cfg in plan:
         res = ctx.mc("MC_Resample", cfg, env={"BASE_FILE": os.path.join(core.VERIF, "models", "catalogue", b + ".json")},
                      timeout=6000)
@@ -201,8 +210,14 @@ def run(ctx):
                               "model": {"raised": inst["mraised"], "kf": inst["mkf"], "rejected": inst["mrej"]}}
             ctx.add_case(payloads[case], nontrivial=bool({"C11.subsequence", "C11.contracted"} & set(inst["mhits"])),
                          sample=case % 997 == 1)
-    n_mc = len(jobs)
-    results = core.parallel_map(_mc_job, jobs, chunksize=32)
+        if not ctx.quick:
+            n_mc += len(jobs)
+            for i0 in range(0, len(jobs), 3000):
+                results += core.parallel_map(_mc_job, jobs[i0:i0 + 3000], chunksize=32)
+                flush()
+            jobs = []
+    n_mc += len(jobs)
+    results += core.parallel_map(_mc_job, jobs, chunksize=32)
     # random Voronoi tissues
     vjobs = []
     cap = ctx.pick(700, 3000)
@@ -212,7 +227,9 @@ def run(ctx):
         vjobs.append((case, s, cap))
         payloads[case] = {"kind": "voronoi", "seed": s, "cap": cap, "params": voronoi_params(s, cap)}
         ctx.add_case(payloads[case], sample=i < 1)
-    results += core.parallel_map(_voronoi_job, vjobs, chunksize=4)
+    for i0 in range(0, len(vjobs), 400):
+        results += core.parallel_map(_voronoi_job, vjobs[i0:i0 + 400], chunksize=4)
+        flush()
     # shipped Surface Evolver dumps and skeleton images
     rng = random.Random(ctx.seed)
     fjobs = []
@@ -230,6 +247,7 @@ def run(ctx):
             payloads[case] = {"kind": "dump", "path": p, "ne": ne, "rse": rse}
             ctx.add_case(payloads[case], sample=False)
     results += core.parallel_map(_dump_job, fjobs)
+    flush()
     sjobs = []
     for p in (IMAGES[:1] if ctx.quick else IMAGES):
         for ne, rse, red in ([(6, True, False)] if ctx.quick else
@@ -240,7 +258,7 @@ def run(ctx):
             payloads[case] = {"kind": "skeleton", "path": p, "ne": ne, "rse": rse, "reduce": red}
             ctx.add_case(payloads[case], sample=False)
     results += core.parallel_map(_skeleton_job, sjobs)
-    verdicts = ctx.validate("Trace_Resample", results, heap="3g")
+    flush(final=True)
     relay(ctx, verdicts)
     ctx.judge(verdicts, payloads)
     ctx.rule = ("TLC enumerates every non-empty cell subset of each catalogue tissue x interior points per edge x ne x "
